@@ -48,7 +48,7 @@ BOUNDS = {
     "thorough": "same plus depth-3 spine over a reduced operator set, both builds",
 }
 OUTSIDE = "numpy object left of a ref; exceptions other than ZeroDivisionError/TypeError; float rounding (real domain)"
-REQUIRED_CLASSES = ["euf_valid", "zero_division_nan", "inplace_checked", "raise_consistent"]
+REQUIRED_CLASSES = ["euf_valid", "zero_division_nan", "inplace_checked", "inplace_with_foreign_target", "raise_consistent"]
 PROFILE_CASES = 40
 TASKS_PER_CHILD = 500
 
@@ -174,6 +174,20 @@ class Dom:
 
 class Obj:
     pass
+
+
+class Sink:
+    """reads go to the domain's container, writes are recorded only"""
+
+    def __init__(self, cont):
+        self.cont = cont
+        self.writes = []
+
+    def __getitem__(self, k):
+        return self.cont[k]
+
+    def __setitem__(self, k, v):
+        self.writes.append((k, v))
 
 
 def outcome(f, *a):
@@ -540,6 +554,19 @@ def run_inplace(ex, case):
         kval = 3 if case["k"] == "lit" else None
     else:
         kval = ctx.lit("q") if case["k"] == "lit" else None
+    if case.get("ctx") == "ckey":
+        # another definition whose target path holds r['a'] as a computed key: r['a'] is then one of
+        # that task's targets without being defined by it
+        sink = Sink(ctx.cont)
+        try:
+            m.ref(sink, "sink")[r["a"]] = r["c"] * 7
+        except (Abort, Inconclusive):
+            raise
+        except Exception as e:
+            ex.fail(f"{tag}: defining sink[r['a']] raised {type(e).__name__}: {e}")
+            return
+        note(ex, "inplace_with_foreign_target")
+        tag += ":ckey-context"
     if case["old"] == "expr":
         r["a"] = r["c"] * 2 if case["dom"] != "pool" else r["c"] + 1
     old_direct = (lambda: d["c"] * 2 if case["dom"] != "pool" else d["c"] + 1) if case["old"] == "expr" else None
@@ -675,6 +702,7 @@ def cases(tier):
                 for old in ("value", "expr"):
                     for k in ("lit", "ref"):
                         out.append({"kind": "inplace", "op": op, "old": old, "k": k, "dom": dom, "build": b})
+                        out.append({"kind": "inplace", "op": op, "old": old, "k": k, "dom": dom, "build": b, "ctx": "ckey"})
             if tier == "thorough" and dom != "pool":
                 red = ["add", "sub", "truediv", "neg", "abs", "pow", "lt"]
                 for o1 in red:
